@@ -296,6 +296,25 @@ impl Decoder {
     pub trim_text_end: bool,
 }
 //@end
+impl Config {
+//@extract reader::Config::trim_text | src/reader/mod.rs :: impl Config :: fn trim_text | serves=C12,C16
+ pub fn trim_text(&mut self, trim: bool)
+        // documented: sets BOTH trimming switches, nothing else
+        ensures *final(self) == (Config { trim_text_start: trim, trim_text_end: trim, ..*old(self) })
+ {
+        self.trim_text_start = trim;
+        self.trim_text_end = trim;
+    }
+//@end
+//@extract reader::Config::enable_all_checks | src/reader/mod.rs :: impl Config :: fn enable_all_checks | serves=C04,C16
+ pub fn enable_all_checks(&mut self, enable: bool)
+        ensures *final(self) == (Config { check_comments: enable, check_end_names: enable, ..*old(self) })
+ {
+        self.check_comments = enable;
+        self.check_end_names = enable;
+    }
+//@end
+}
 
 //@extract reader::ParseState | src/reader/mod.rs :: enum ParseState | serves=C01,C03
 pub enum ParseState {
